@@ -45,6 +45,7 @@ type Oblig struct {
 	Budget   time.Duration
 	NoRedirect bool // run without the property's redirects (real callees)
 	KeepRedirects []string // if set, only these redirects (by target model name) stay active
+	DropRedirects []string // redirects (by target model name) switched off for this obligation
 }
 
 // Prop describes how one property is checked.
@@ -675,6 +676,13 @@ func runOblig(base *sym.Engine, prog *sym.Program, p *Prop, o Oblig, worker int,
 		}
 		for k, f := range e.Redirect {
 			if !keep[f.Name()] {
+				delete(e.Redirect, k)
+			}
+		}
+	}
+	for _, d := range o.DropRedirects {
+		for k, f := range e.Redirect {
+			if f.Name() == d {
 				delete(e.Redirect, k)
 			}
 		}
